@@ -73,7 +73,7 @@ def case_stmts(fn, value, param_name=None):
 def analyse(facts, tier):
     obls = []
     obls += erase_keyoff_obligations(facts, 'C05.R1')
-    rc = facts.fn('OPNMIDIplay::realTime_Controller')
+    rc = deref_view(facts.fn('OPNMIDIplay::realTime_Controller'), ('m_midiChannels', 'm_chipChannels'))
     nu = facts.fn('OPNMIDIplay::noteUpdate')
     ks = facts.fn('OPNMIDIplay::killSustainingNotes')
     en = enum_consts([rc, nu, ks, facts.fn('OPNMIDIplay::realTime_panic'), facts.fn('OPNMIDIplay::noteOff'), facts.fn('OPNMIDIplay::TickIterators')])
